@@ -206,7 +206,33 @@ def check(model: Model, run: Run) -> None:
         run.ob("H4-reader-escape-language", ok, {"missing": w1, "extra": w2})
         if not ok:
             run.fail(Finding("H4-reader-escape-language", dec.qualname, f"missing={w1} extra={w2}", "the un-escape pattern does not decode exactly \\27 and \\5c/\\5C", model.loc(SCHEMA, rsites[0].node)))
+    # H10: everything the writer can emit for a non-empty text is a qdstring of the library's own grammar fragment
+    try:
+        frag = folder.fold_global(SCHEMA, "QDSTRING")
+    except Unfoldable as ex:
+        raise AnalysisError(f"schema.QDSTRING does not fold to a constant: {ex}")
+    if fmt and isinstance(frag, str):
+        import re as _re
+        esc_chars = [c for lo, hi in wclass.iv for c in range(lo, hi + 1)]
+        cls_txt = "".join("\\x%02x" % c if c < 256 else "\\u%04x" % c for c in esc_chars)
+        alts = ["[^%s]" % cls_txt] + ["".join("\\x%02x" % ord(ch) for ch in f"\\{c:{fmt[1]}}") for c in esc_chars]
+        wlang = Lang(build("'(?:%s)+'" % "|".join(alts), 0, "fullmatch"))
+        flags = _re.VERBOSE if any(s_.flags & _re.VERBOSE for s_ in find_sites(model) if s_.module == SCHEMA) else 0
+        rlang = Lang(build(frag, flags, "fullmatch"))
+        w = difference_witness(wlang, rlang)
+        shown = "".join(chr(c) if 0x20 <= c < 0x7F else f"\\u{c:04x}" if c <= 0xFFFF else f"\\U{c:08x}" for c in w) if w else None
+        run.ob("H10-writer-output-is-a-qdstring", w is None, {"witness": shown})
+        if w is not None:
+            run.fail(Finding("H10-writer-output-is-a-qdstring", f"{SCHEMA}.QDSTRING", f"witness:{shown}",
+                             f"the serialiser can emit {shown!r} for a description/extension text, which the library's own QDSTRING fragment does not match: from_string rejects str()'s output",
+                             model.loc(SCHEMA, wsite.node)))
     unescape_single_pass(model, run)
+    int_presence_tests(model, run)
+    from .c17 import extension_cut_positions
+    extension_cut_positions(model, run, "H9-no-delimiter-search-across-quoted-values")
+    from .c19 import parse_results_fresh
+    parse_results_fresh(model, run, "sansldap.schema", "H7-parse-results-are-fresh", "from_string(str(x)) == x")
+
     # ---- (3) keyword skeleton of __str__ is a sentence of the pattern ------------------
     for cname in CLASSES:
         keyword_skeleton(model, run, folder, cname)
@@ -295,3 +321,44 @@ def keyword_skeleton(model: Model, run: Run, folder: Folder, cname: str) -> None
     if not ok:
         run.fail(Finding("H5-keyword-order", q + ".__str__", f"order={[k for k, _ in kws]}",
                          f"__str__ can emit {''.join(chr(c) for c in w)!r} (keywords in its own order), which the description pattern does not accept", model.loc(SCHEMA, sfi.node)))
+
+
+def int_presence_tests(model: Model, run: Run) -> None:
+    """H8: in the serialisers, a field that may hold 0 (annotated int / Optional[int]) is tested for presence with
+    `is not None`, never by truthiness: `if self.n:` drops a legitimate 0 from the text and the parser gives None back."""
+    from ..resolve import Resolver
+    rs = Resolver(model)
+    n = 0
+    for cq, c in sorted(model.classes.items()):
+        if c.module != "sansldap.schema" or "__str__" not in c.methods:
+            continue
+        fi = c.methods["__str__"]
+        fields = {f.name: (norm(f.annotation) if f.annotation is not None else "") for f in model.dataclass_fields(cq)} if c.is_dataclass else {}
+        intf = {k for k, a in fields.items() if a in ("int", "t.Optional[int]", "typing.Optional[int]", "Optional[int]")}
+        if not intf:
+            continue
+
+        def truthy_tests(e: ast.expr):
+            """sub-expressions of a condition that are evaluated for truth"""
+            if isinstance(e, ast.BoolOp):
+                for v in e.values:
+                    yield from truthy_tests(v)
+            elif isinstance(e, ast.UnaryOp) and isinstance(e.op, ast.Not):
+                yield from truthy_tests(e.operand)
+            else:
+                yield e
+        for x in walk_no_nested(fi.node):
+            tests = []
+            if isinstance(x, (ast.If, ast.While, ast.IfExp)):
+                tests = list(truthy_tests(x.test))
+            elif isinstance(x, ast.BoolOp):
+                tests = [v for v in x.values[:-1] for v in truthy_tests(v)]
+            for t_ in tests:
+                if isinstance(t_, ast.Attribute) and isinstance(t_.value, ast.Name) and t_.value.id == "self" and t_.attr in intf:
+                    n += 1
+                    run.ob("H8-int-fields-tested-with-is-not-none", False, {"class": c.name, "field": t_.attr})
+                    run.fail(Finding("H8-int-fields-tested-with-is-not-none", fi.qualname, f"truthiness of self.{t_.attr}",
+                                     f"{c.name}.__str__ decides whether to write `{t_.attr}` ({fields[t_.attr]}) by its truthiness: the value 0 is valid (number = DIGIT / ...) and is silently dropped, "
+                                     "so the text parses back with None", model.loc(c.module, t_)))
+        for k in sorted(intf):
+            run.ob("H8-int-fields-tested-with-is-not-none", True, {"class": c.name, "field": k})
